@@ -4,6 +4,21 @@ import json, os
 V = os.path.dirname(os.path.dirname(os.path.abspath(__file__)))
 
 CLAIMED = {
+ "C06": dict(
+   category="proof", design_ref="DESIGN.md §5 C06–C08, §9.1",
+   text="7 Lean theorems about the executable model of symbol.Table (insert/free/close/links/unlinks/linked/isActivated/load/unload/exec transcribed from table.go, Go map iteration orders as explicit parameters, theorems hold for every order): C06.wiring_exact (for every well-formed history of Insert/Free/Close, whatever the operations returned: a link exists iff source and target are live, in the same namespace, the ports exist and the source's spec names the target by id or by live name – hence no stale and no cross-namespace links: C06.wiring_no_stale, C06.wiring_same_namespace), C06.names_exact, C06.lookup_latest. Tied to the code by differential execution of histories (≤14 ops, universes with shared targets, cycles, self and dangling references, renames, 2 namespaces; 4k cases quick, 120k thorough) on the real Table with real nodes, comparing keys, links, the reverse-reference index and the active set after every operation, plus an independent wiring oracle.",
+   note="The port layer is reduced to a set of links with the close rule; *Symbol pointers are ids; fuelled loops return an explicit panic on exhaustion (never hit; fuel sufficiency not proved). Assumptions: live names unique per namespace, exactly one of id/name per reference, Table methods atomic (C20). Trusted: Lean kernel, harness, VerifReferences hook.",
+   technique="Lean 4 proof (invariant by induction over operation histories, order-parametric) + model/implementation differential correspondence"),
+ "C07": dict(
+   category="proof", design_ref="DESIGN.md §5 C06–C08, §9.1",
+   text="5 Lean theorems on the same Table model: C07.isActivated_iff_closure (in every reachable state the table's activation test on a live symbol is true exactly when the transitive closure predicate of the statement holds – cycles included), C07.reachable_keyId, C07.linked_nodup (a symbol is listed at most once per operation – what the second fix establishes), C07.linked_dup_on_pinned (decide witness of the pinned double load). The history-level statements (active set = closure set after every operation, load/unload alternation, unload before close, Close unloads all) are stated as defs and NOT yet proved; they are checked on the implementation by the oracle after every operation of every generated history.",
+   note="Partial: the history-level theorems need references_exact through the unlinks filter and completeness of linked's queue loops. Same model, correspondence and assumptions as C06. Two defects fixed (unlinks && → ||; linked listing a cycle's root twice).",
+   technique="Lean 4 proof (state-level characterisation of activation) + model/implementation differential correspondence + implementation oracle for the history-level clauses"),
+ "C08": dict(
+   category="proof", design_ref="DESIGN.md §5 C06–C08, §9.1",
+   text="8 Lean theorems on the same Table model: C08.lifecycle_order_load / lifecycle_order_unload (load and unload change only the log, appending one block [init flow, load hooks, begin flow] resp. [term flow, unload hooks, final flow] per activated symbol of linked, in linked's order resp. reversed; exactly one block each when the result is nil), C08.error_aborts_load / unload / free / insert / close (a returned error is exactly the answer of the last flow run, nothing runs after it, and a failed free phase changes nothing). Dependencies-first (C08.deps_first_full: linked is a linear extension for acyclic graphs) is stated but NOT yet proved; it is checked on the real log by the oracle.",
+   note="Partial: Kahn's counting invariant for linked is not proved. Lifecycle flows are a parameter respond : id → port → ok | err; map-order-dependent abort points of Close are not generated. Same model, correspondence and assumptions as C06.",
+   technique="Lean 4 proof (structure of the event log of one table operation) + model/implementation differential correspondence + implementation oracle for dependency order"),
  "C14": dict(
    category="proof", design_ref="DESIGN.md §5 C14",
    text="15 Lean theorems for ALL values of the mutual inductive Val (every integer/float width, strings, binaries, booleans, errors, nil, nested slices and maps; no well-formedness hypothesis needed): C14.equal_refl / equal_symm / equal_trans, C14.cmp_antisymm (cmp a b = -cmp b a), C14.cmp_trans (+ strict variants), C14.cmp_total, C14.equal_iff_cmp_zero, C14.equal_hash, C14.cross_kind. Floats are IEEE-754 bit patterns with the cmp.Compare order, hashing is FNV-1a-64 re-implemented on UInt64; kind ranks come from Generated/Kinds.lean, regenerated from value.go on every run. Tied to the code by differential execution of Equal/Compare/Hash on pools of 64–80 delicate values (all ordered pairs: 33k quick, 384k thorough) and an independent Go oracle of the laws incl. stability under mutation of derived values.",
